@@ -84,6 +84,19 @@ def closeTanh (ty : String) (a b : List (Nat × Float)) : Bool :=
   let tol : Float := if ty.endsWith "f32" then 2e-5 else 1e-11
   a.length == b.length && (a.zip b).all (fun p => p.1.1 == p.2.1 && ((th p.1.2 - th p.2.2).abs ≤ tol))
 
+/-- C04Round.approx_rule_rounded / amin_rule_rounded with the closed forms of step_bounds_linear: the implementation's value and the
+Float model's value of a min*-approx / A-Min* message are both within d·32(u+e)(B+2) of the real rule's value, B = largest input
+magnitude (u = 2⁻⁵³, e = 2⁻⁵⁰ for f64; u = 2⁻²⁴, e = 2⁻²¹ for the f32 types, whose model is evaluated in f64).  Compared in the LLR
+domain with a factor 4 of slack — far tighter than the tanh-domain comparison for large magnitudes, where tanh is flat -/
+def withinProvedLLR (ty : String) (msgs ml ol : List (Nat × Float)) : Bool :=
+  let fam := family ty
+  if fam != "approx" && fam != "amin" then true else
+  let bmax := msgs.foldl (fun a m => if m.2.abs > a then m.2.abs else a) 0
+  if !(bmax < 1e15) then true else
+  let ue : Float := if ty.endsWith "f32" then 5.9604644775390625e-8 + 4.76837158203125e-7 else 1.1102230246251565e-16 + 8.881784197001252e-16
+  let tol : Float := 4 * (Float.ofNat msgs.length) * 32 * ue * (bmax + 2)
+  ml.length == ol.length && (ml.zip ol).all (fun p => p.1.1 == p.2.1 && (p.1.2 - p.2.2).abs ≤ tol)
+
 def handleC04F (ty m : String) (out : List String) : String :=
   match parsePairsF m with
   | some msgs =>
@@ -97,7 +110,7 @@ def handleC04F (ty m : String) (out : List String) : String :=
        | some ol =>
          let prop := checkPredF ty msgs ol
          (match model with
-          | some ml => if closeTanh ty ml ol then verdict out out prop else verdict [showPairsF ml] out prop
+          | some ml => if closeTanh ty ml ol && withinProvedLLR ty msgs ml ol then verdict out out prop else verdict [showPairsF ml] out prop
           | none => verdict ["panic"] out prop)
        | none => "BADLINE c04 f out")
     | _ => "BADLINE c04 f out"
